@@ -12,7 +12,11 @@
 #ifndef VERIF_MINI_MIR_H
 #define VERIF_MINI_MIR_H
 
+#if H_CBMC && defined(H_ALLOC_NATIVE)
+static struct MIR_alloc h_alloc; /* h_alloc_native.h: allocation goes to CBMC malloc at the call site; no function pointers (they would only add spurious indirect-call candidates) */
+#else
 static struct MIR_alloc h_alloc = {h_slot_malloc, h_slot_calloc, h_slot_realloc, h_slot_free, NULL};
+#endif
 
 /* ---- noreturn error callback protocol (HARNESS-GUIDE rule 7) ---- */
 static int h_err_expected;            /* set by the harness before the call under test: an error MUST follow */
@@ -52,7 +56,17 @@ static MIR_context_t h_mini_ctx (void) {
   VARR_PUSH (string_t, aliases, string);
   HTAB_CREATE (string_t, alias_tab, alloc, 2, str_hash, str_eq, NULL);
   VARR_CREATE (MIR_proto_t, unspec_protos, alloc, 2);
-  check_and_prepare_insn_descs (ctx);
+  { /* check_and_prepare_insn_descs with an exact-capacity array (the real one grows a VARR 190 times) */
+    static size_t h_insn_nops_data[MIR_INSN_BOUND + 1];
+    static VARR (size_t) h_insn_nops = {0, MIR_INSN_BOUND + 1, h_insn_nops_data, &h_alloc};
+    insn_nops = &h_insn_nops; /* never freed by a mini-init harness */
+    for (size_t i = 0; i < MIR_INSN_BOUND; i++) {
+      size_t j;
+      for (j = 0; insn_descs[i].op_modes[j] != MIR_OP_BOUND; j++)
+        ;
+      VARR_PUSH (size_t, insn_nops, j);
+    }
+  }
   DLIST_INIT (MIR_module_t, all_modules);
   VARR_CREATE (char, temp_string, alloc, 64);
   VARR_CREATE (uint8_t, temp_data, alloc, 64);
